@@ -681,7 +681,7 @@ func (e *Exec) mapTouch(m *MapObj, site string) {
 			e.dirtyMaps = append(e.dirtyMaps, m)
 		}
 	}
-	if e.monitorOn && m.Born <= e.monitorEpoch && !isGhostTag(m.Tag) {
+	if e.monitorOn && e.initMode == 0 && m.Born <= e.monitorEpoch && !isGhostTag(m.Tag) {
 		fn := ""
 		if e.curFn != nil {
 			fn = e.curFn.String()
